@@ -280,7 +280,11 @@ class Paraxial:
         max_field = self.optic.fields.max_y_field
 
         if self.optic.field_type == 'object_height':
-            u1 = 0.1 * max_field / y[-1]
+            # ray height on the object (the object surface does not
+            # propagate paraxial rays, so y[-1] is the height on surface 1)
+            pos = self.surfaces.positions
+            y_obj = y[-1] + u[-1] * (pos[1] - pos[0])
+            u1 = -0.1 * max_field / y_obj
         elif self.optic.field_type == 'angle':
             u1 = 0.1 * np.tan(np.deg2rad(max_field)) / u[-1]
 
